@@ -343,6 +343,37 @@ def run(ctx):
                               "%s on two ASTs holding %s (one annotated) folds to %s" % (op, show(t), F.fmt_res(rf)),
                               {"kind": "annotated-eq", "op": op, "s": list(t)})
 
+    # from-int beyond the 64-bit interface (the property quantifies over 64-bit values; this is an extension): values with more
+    # decimal digits than CPython converts in one go (4300) take a chunked path in backend_concrete/strings.py
+    import claripy as _cl
+
+    def dec(v):             # independent decimal conversion: base 10**18 digits (integer division has no digit limit)
+        out = []
+        while v:
+            v, r = divmod(v, 10 ** 18)
+            out.append(r)
+        return "0" if not out else str(out[-1]) + "".join(str(r).zfill(18) for r in reversed(out[:-1]))
+    wide = [10 ** k + d for k in (4299, 4300, 4301, 4999, 8000, 8600, 12001) for d in (0, 7)] + \
+           [ctx.rng.randrange(1, 10 ** 9) * 10 ** k + ctx.rng.randrange(10 ** 6) for k in (4000, 4300, 4310, 8000, 8600, 8615, 12900)] + \
+           [ctx.rng.randrange(10 ** 4400, 10 ** 4500) for _ in range(ctx.pick(4, 40))]
+    nwide = 0
+    for v in wide:
+        ctx.count(); nwide += 1
+        try:
+            r = _cl.IntToStr(_cl.BVV(v, v.bit_length() + ctx.rng.randrange(1, 9)))
+            got = r.args[0] if r.op == "StringV" else "<unfolded %s>" % r.op
+        except Exception as ex:  # noqa
+            got = "<%s>" % type(ex).__name__
+        want = dec(v)
+        if got != want:
+            k = next((i for i, (p_, q_) in enumerate(zip(got, want)) if p_ != q_), min(len(got), len(want)))
+            ctx.violation("C03/IntToStr/wide-value/%s" % ("err" if got.startswith("<") else "value"),
+                          "IntToStr of a %d-digit value folds to a string of %d characters that differs from the decimal representation at "
+                          "position %d (%r vs %r)" % (len(want), len(got), k, got[k:k + 12], want[k:k + 12]),
+                          {"kind": "wide-int-to-str", "value_hex": hex(v)})
+            break
+    ctx.cov["input_distribution"]["IntToStr-wide(>4300 digits)"] = nwide
+
     # ---------------------------------------------------------------- 4. literal codec: real pieces vs Lean model, and the property
     pool = codec_pool(ctx)
     ctx.cov["codec_pool"] = len(pool)
@@ -527,6 +558,18 @@ def replay(ctx, obj):
                 print("  end to end:", e)
                 bad = bad or e is not None
         return 1 if bad else 0
+    if kind == "wide-int-to-str":
+        import claripy
+        v = int(r["value_hex"], 16)
+        out, x = [], v
+        while x:
+            x, q = divmod(x, 10 ** 18)
+            out.append(q)
+        want = "0" if not out else str(out[-1]) + "".join(str(q).zfill(18) for q in reversed(out[:-1]))
+        got = claripy.IntToStr(claripy.BVV(v, v.bit_length() + 1))
+        ok = got.op == "StringV" and got.args[0] == want
+        print("IntToStr of a %d-digit value: %s" % (len(want), "agrees with the decimal representation" if ok else "DIFFERS from the decimal representation"))
+        return 0 if ok else 1
     t = tuple(r["s"])
     if kind == "annotated-eq":
         rf = F.real_fold(r["op"], (t, t), annotate=make_annotation())
